@@ -14,8 +14,11 @@ RELEASED = ["C01", "C02", "C05", "C06", "C07", "C08", "C09", "C10", "C11", "C12"
 # growth modules (spec coverage beyond the listed properties): run as ./bin/check G0x, listed as engines only
 GROWTH = {"G01": ("EncMode", ["C02", "C11"]), "G02": ("FrameHdr", ["C01", "C06"]), "G03": ("Surround", ["C05", "C10"]), "G04": ("Alloc", ["C02", "C17"]), "G05": ("DecOp", ["C01", "C19"]), "G06": ("SilkIdx", ["C02", "C18"]), "G07": ("BandBits", ["C02"]),
           "G08": ("SilkSide2", ["C18"]), "G09": ("Energy", ["C02", "C01", "C17"]),
+          "G10": ("SilkEncCtl", ["C02", "C05", "C11", "C20"]),
           "G11": ("AnalysisRing", ["C02", "C12"]), "G12": ("CeltDecState", ["C02", "C09", "C12"]),
-          "G13": ("SilkPlc", ["C01", "C09", "C12"])}
+          "G13": ("SilkPlc", ["C01", "C09", "C12"]),
+          "G14": ("Resampler", ["C01", "C02", "C12"]), "G15": ("SilkDecCore", ["C01", "C12"]),
+          "G16": ("EncDelay", ["C02", "C05", "C11", "C12"])}
 PENDING = "check not built yet in this round (see DESIGN section 10 for the build order)"
 
 
